@@ -3,6 +3,7 @@ use crate::Ctx;
 
 pub mod server;
 pub mod zone;
+pub mod tsig;
 pub mod c14;
 pub mod c15;
 pub mod c16;
@@ -18,6 +19,8 @@ pub fn run(ctx: &Ctx, rep: &mut Report) -> bool {
         }
         "c02" | "c03" | "c04" | "c05" | "c08" | "c09" => server::run(ctx, rep, &ctx.prop),
         "c06" => zone::run_c06(ctx, rep),
+        "c10" => tsig::run_c10(ctx, rep),
+        "c11" => tsig::run_c11(ctx, rep),
         "c20" => zone::run_c20(ctx, rep),
         "c21" => zone::run_c21(ctx, rep),
         "c22" => zone::run_c22(ctx, rep),
